@@ -111,6 +111,11 @@ Definition lift (verbatim : bool) (o : outcome) : result :=
   | ODeleted => RTombstone
   end.
 
+(* import: the raw document is decoded into a struct whose _sync field is the sync metadata; encoding/json visits EVERY
+   member of that name, so a shadowed _sync that is neither null nor an object fails the decoding as well (500) *)
+Definition import_guard (raw : list member) : bool :=
+  existsb (fun m => bytes_eqb (mkey m) k_sync && match mkind m with KNull | KObj => false | _ => true end) raw.
+
 Definition is_bulk (e : entry) : bool := match e with EBulk | EBulkNE => true | _ => false end.
 
 Definition accept (e : entry) (t : top) : result :=
@@ -135,8 +140,9 @@ Definition accept (e : entry) (t : top) : result :=
       | EBulkNE => if tr then RRej 400 else lift false (put_existing b)
       | EBlip => if tr then RRej 400                            (* json.Valid: exactly one JSON value (repair b5cfb32) *)
                  else lift (negb (blip_remarshals raw)) (blip_rev_gen blip_check_fixed b)
-      | EImport => lift true (import_doc b)
-      | EImportFeed => if tr then RRej 404 else lift true (import_doc b)   (* the feed skips a value that is not JSON *)
+      | EImport => if import_guard raw then RRej 500 else lift true (import_doc b)
+      | EImportFeed => if tr then RRej 404                      (* the feed skips a value that is not JSON *)
+                       else if import_guard raw then RRej 500 else lift true (import_doc b)
       | EBlipDelta => RRej 400
       end
   end.
@@ -287,8 +293,10 @@ Definition accept_gen (fx : fixes) (e : entry) (t : top) : result :=
       | EBlip => if tr && fx_trailing fx then RRej 400
                  else lift (negb (blip_remarshals raw))
                            (blip_rev_chk (blip_disallowed_of (fx_cv fx)) (visible blip_check_fixed) b)
-      | EImport => lift true (import_doc_dis (import_disallowed_of (fx_cv fx)) b)
-      | EImportFeed => if tr then RRej 404 else lift true (import_doc_dis (import_disallowed_of (fx_cv fx)) b)
+      | EImport => if import_guard raw then RRej 500 else lift true (import_doc_dis (import_disallowed_of (fx_cv fx)) b)
+      | EImportFeed => if tr then RRej 404
+                       else if import_guard raw then RRej 500
+                       else lift true (import_doc_dis (import_disallowed_of (fx_cv fx)) b)
       | EBlipDelta => RRej 400
       end
   end.
